@@ -225,4 +225,199 @@ example : ((intToks "###0".toList 0).foldl
     (layoutStep { useThousands := true, digitCount := 4 } ⟨['.'], [','], .western⟩ false "12345".toList []) {}).text
     = "12,345".toList := by decide +kernel
 
+/-! ## Scientific codes
+
+  Specification on exact decimals (`sciRound`: digit string + decimal exponent → mantissa with
+  exactly d+1 digits and exponent, rounding half away, carry included) with its theorems for ALL
+  digit strings; the exponent placeholders' layout; and the engine against the specification:
+  the full statement is false (`C20_sci_full_false`), agreement outside the listed findings is
+  checked by the bit-exact differential run and the oracle (not proved). -/
+
+/-- scientific normalisation of the exact decimal `N · 10^e10`, `N` with exactly `len` digits, to `d`
+    decimals, rounding half away from zero: `(M, E)` denotes `M · 10^(E - d)` -/
+def sciRound (N len : Nat) (e10 : Int) (d : Nat) : Nat × Int :=
+  if N = 0 then (0, 0) else
+  let E0 : Int := e10 + len - 1
+  if len ≤ d + 1 then (N * 10 ^ (d + 1 - len), E0)
+  else
+    let M := rha N (10 ^ (len - d - 1))
+    if M = 10 ^ (d + 1) then (10 ^ d, E0 + 1) else (M, E0)
+
+/-- the mantissa is normalised — exactly `d + 1` digits, 1 ≤ mantissa < 10 — also after a carry -/
+theorem sciRound_normalised (N len : Nat) (e10 : Int) (d : Nat) (hN : N ≠ 0)
+    (hlo : 10 ^ (len - 1) ≤ N) (hhi : N < 10 ^ len) (hlen : 0 < len) :
+    10 ^ d ≤ (sciRound N len e10 d).1 ∧ (sciRound N len e10 d).1 < 10 ^ (d + 1) := by
+  unfold sciRound
+  simp only [hN, if_false]
+  split
+  · rename_i h
+    -- no rounding: N · 10^(d+1-len)
+    have e1 : 10 ^ d = 10 ^ (len - 1) * 10 ^ (d + 1 - len) := by
+      rw [← Nat.pow_add]; congr 1; omega
+    have e2 : 10 ^ (d + 1) = 10 ^ len * 10 ^ (d + 1 - len) := by
+      rw [← Nat.pow_add]; congr 1; omega
+    have hp : 0 < 10 ^ (d + 1 - len) := Nat.pow_pos (by decide)
+    simp only []
+    constructor
+    · rw [e1]; exact Nat.mul_le_mul_right _ hlo
+    · rw [e2]; exact Nat.mul_lt_mul_of_pos_right hhi hp
+  · rename_i h
+    have hu : 0 < 10 ^ (len - d - 1) := Nat.pow_pos (by decide)
+    have e1 : 10 ^ (len - 1) = 10 ^ d * 10 ^ (len - d - 1) := by
+      rw [← Nat.pow_add]; congr 1; omega
+    have e2 : 10 ^ len = 10 ^ (d + 1) * 10 ^ (len - d - 1) := by
+      rw [← Nat.pow_add]; congr 1; omega
+    have hs := rha_spec N (10 ^ (len - d - 1)) hu
+    generalize 10 ^ (len - d - 1) = u at *
+    generalize rha N u = M at *
+    have hpd : 0 < 10 ^ d := Nat.pow_pos (by decide)
+    have e3 : 10 ^ (d + 1) = 10 * 10 ^ d := by rw [Nat.pow_succ]; omega
+    -- lower bound: 10^d * u ≤ N  and  2N < (2M+1) u  ⇒  10^d ≤ M
+    have hlow : 10 ^ d ≤ M := by
+      apply Classical.byContradiction
+      intro hc
+      have : M + 1 ≤ 10 ^ d := by omega
+      have : (2 * M + 1) * u ≤ (2 * 10 ^ d) * u := Nat.mul_le_mul_right _ (by omega)
+      have : 2 * 10 ^ d * u = 2 * (10 ^ d * u) := by rw [Nat.mul_assoc]
+      omega
+    -- upper bound: N < 10^(d+1) u and 2 M u ≤ 2N + u ⇒ M ≤ 10^(d+1)
+    have hup : M ≤ 10 ^ (d + 1) := by
+      apply Classical.byContradiction
+      intro hc
+      have h1 : 10 ^ (d + 1) + 1 ≤ M := by omega
+      have h2 : 2 * (10 ^ (d + 1) + 1) * u ≤ 2 * M * u :=
+        Nat.mul_le_mul_right _ (Nat.mul_le_mul_left _ h1)
+      have h3 : 2 * (10 ^ (d + 1) + 1) * u = 2 * (10 ^ (d + 1) * u) + 2 * u := by
+        rw [Nat.mul_assoc, Nat.add_mul, Nat.mul_add]; omega
+      omega
+    split
+    · simp only []; omega
+    · simp only []; omega
+
+/-- the value is the input rounded half away from zero at the last mantissa digit; a carry
+    (`99.95 → 1.00E+02`) denotes the same number -/
+theorem sciRound_value (N len : Nat) (e10 : Int) (d : Nat) (hN : N ≠ 0) (h : d + 1 < len) :
+    let u := 10 ^ (len - d - 1)
+    let R := (sciRound N len e10 d).1 * 10 ^ ((sciRound N len e10 d).2 - (e10 + len - 1)).toNat
+    2 * N < (2 * R + 1) * u ∧ 2 * R * u ≤ 2 * N + u := by
+  have hu : 0 < 10 ^ (len - d - 1) := Nat.pow_pos (by decide)
+  have hs := rha_spec N (10 ^ (len - d - 1)) hu
+  have hnle : ¬ len ≤ d + 1 := by omega
+  simp only [sciRound, hN, if_false, hnle]
+  split
+  · rename_i hc
+    have : ((e10 + (len : Int) - 1 + 1) - (e10 + (len : Int) - 1)).toNat = 1 := by omega
+    simp only [this, Nat.pow_one]
+    have : 10 ^ d * 10 = 10 ^ (d + 1) := by rw [Nat.pow_succ]
+    rw [this, ← hc]
+    exact hs
+  · have : ((e10 + (len : Int) - 1) - (e10 + (len : Int) - 1)).toNat = 0 := by omega
+    simp only [this, Nat.pow_zero, Nat.mul_one]
+    exact hs
+
+/-- with at most `d + 1` digits nothing is rounded -/
+theorem sciRound_exact (N len : Nat) (e10 : Int) (d : Nat) (hN : N ≠ 0) (h : len ≤ d + 1) :
+    sciRound N len e10 d = (N * 10 ^ (d + 1 - len), e10 + len - 1) := by
+  simp [sciRound, hN, h]
+
+example : sciRound 9995 4 (-3) 2 = (100, 1) := by decide
+example : sciRound 9994 4 (-3) 2 = (999, 0) := by decide
+example : sciRound 12345 5 0 2 = (123, 4) := by decide
+example : sciRound 12 2 (-5) 2 = (120, -4) := by decide
+
+/-! ### exponent placeholders -/
+
+def expMarker (p : NumberPart) (expNeg : Bool) : List Char :=
+  if expNeg then ['E', '-'] else if p.scientificMinus then ['E'] else ['E', '+']
+
+/-- exponent not longer than its placeholders, padding position: after the marker of the first
+    placeholder (`E-` for a negative exponent, else `E+`, or `E` for `E-` codes), `0` prints `0`,
+    `?` a space, `#` nothing -/
+theorem exp_small_pad (p : NumberPart) (loc : Loc) (neg : Bool) (ip fp ep : List Char) (expNeg : Bool)
+    (s : LState) (kind : Char) (index : Nat)
+    (hsmall : ep.length ≤ p.exponentDigitCount) (hpad : index + ep.length < p.exponentDigitCount) :
+    layoutStepSci p loc neg ip fp ep expNeg s (.digit kind index .exp) =
+      { s with text := s.text ++ (if index = 0 then expMarker p expNeg else [])
+                        ++ (if kind = '#' then [] else [if kind = '?' then ' ' else '0']) } := by
+  have h1 : (ep.length : Int) ≤ (p.exponentDigitCount : Int) := by omega
+  have h2 : (ep.length : Int) - ((p.exponentDigitCount : Int) - (index : Int)) < 0 := by omega
+  have h4 : ¬ p.exponentDigitCount ≤ ep.length := by omega
+  by_cases hi : index = 0
+  · subst hi
+    have h2' : (ep.length : Int) - (p.exponentDigitCount : Int) < 0 := by omega
+    by_cases hk : kind = '#' <;> simp [layoutStepSci, expMarker, h1, h2', h4, hk]
+  · by_cases hk : kind = '#' <;> simp [layoutStepSci, expMarker, hi, h1, h2, h4, hk]
+
+/-- digit position: prints exactly `ep[index - (exponent_digit_count - len)]`, the access is in range -/
+theorem exp_small_digit (p : NumberPart) (loc : Loc) (neg : Bool) (ip fp ep : List Char) (expNeg : Bool)
+    (s : LState) (kind : Char) (index : Nat)
+    (hsmall : ep.length ≤ p.exponentDigitCount) (hidx : index < p.exponentDigitCount)
+    (hdig : p.exponentDigitCount ≤ index + ep.length) :
+    ∃ c, ep[index + ep.length - p.exponentDigitCount]? = some c ∧
+      layoutStepSci p loc neg ip fp ep expNeg s (.digit kind index .exp) =
+        { s with text := s.text ++ (if index = 0 then expMarker p expNeg else []) ++ [c] } := by
+  have hlt : index + ep.length - p.exponentDigitCount < ep.length := by omega
+  refine ⟨ep[index + ep.length - p.exponentDigitCount], by simp [hlt], ?_⟩
+  have h1 : (ep.length : Int) ≤ (p.exponentDigitCount : Int) := by omega
+  have h2 : ¬ ((ep.length : Int) - ((p.exponentDigitCount : Int) - (index : Int)) < 0) := by omega
+  have h3 : ((ep.length : Int) - ((p.exponentDigitCount : Int) - (index : Int))).toNat
+      = index + ep.length - p.exponentDigitCount := by omega
+  by_cases hi : index = 0
+  · subst hi
+    have h2' : ¬ ((ep.length : Int) - (p.exponentDigitCount : Int) < 0) := by omega
+    have h3' : ((ep.length : Int) - (p.exponentDigitCount : Int)).toNat = 0 + ep.length - p.exponentDigitCount := by omega
+    have h5 : 0 + ep.length - p.exponentDigitCount = ep.length - p.exponentDigitCount := by omega
+    simp [layoutStepSci, expMarker, h1, h2', h3', h5] at *
+    have hlt' : ep.length - p.exponentDigitCount < ep.length := by omega
+    simp [hlt']
+  · simp [layoutStepSci, expMarker, hi, h1, h2, h3, hlt]
+
+/-! ### engine against the specification -/
+
+/-- the 15 significant digits of a double as an exact decimal `(N, e10)`: `N · 10^e10` -/
+def round15Dec (v : Mag) : Nat × Int :=
+  if v.m = 0 then (0, 0) else
+  let E := ilog10 v.num v.den
+  let s : Int := 14 - E
+  (if s ≥ 0 then rhe (v.num * pow10 s.toNat) v.den else rhe v.num (v.den * pow10 (-s).toNat), -s)
+
+/-- what the specification shows: integer digit, fraction digits without trailing zeros, digits of
+    |exponent|, exponent negative -/
+def sciSpecDigits (v : Mag) (d : Nat) : List Char × List Char × List Char × Bool :=
+  let (N, e10) := round15Dec v
+  let (M, E) := sciRound N (if N = 0 then 0 else (natDigits N).length) e10 d
+  let ds := padLeft (d + 1) '0' (natDigits M)
+  (if M = 0 then [] else ds.take 1, stripTrailingZeros (ds.drop 1), natDigits E.natAbs, decide (E < 0))
+
+/-- what the engine shows (`none`: non-finite intermediate or the unmodelled `log10` zone) -/
+def sciEngineDigits (v : Mag) (d : Nat) : Option (List Char × List Char × List Char × Bool) :=
+  match sciStage v d with
+  | .ok m ep expNeg =>
+    let intNumber := if d = 0 then m.round else m.floor
+    let ip := if intNumber = 0 then [] else displayInt intNumber
+    some (ip, getFractPart m d ip.length, ep, expNeg)
+  | _ => none
+
+def C20_sci_full : Prop :=
+  ∀ (v : Mag) (d : Nat), ValidDouble v → d ≤ 22 →
+    sciEngineDigits v d = none ∨ sciEngineDigits v d = some (sciSpecDigits v d)
+
+/-- 99.96 with `0.00E+00`: the engine shows 9.00E+01 (the fraction .996 rounds up to 1.00 and the
+    carry is dropped), the specification 1.00E+02 -/
+theorem C20_sci_full_false : ¬ C20_sci_full := by
+  intro h
+  have := h ⟨7034059667999293, -46⟩ 2 (by unfold ValidDouble; decide) (by decide)
+  revert this
+  decide +kernel
+
+example : sciEngineDigits ⟨7034059667999293, -46⟩ 2 = some (['9'], [], ['1'], false) := by decide +kernel
+example : sciSpecDigits ⟨7034059667999293, -46⟩ 2 = (['1'], [], ['2'], false) := by decide +kernel
+
+/-- agreement where nothing special happens: 12345 → 1.23E+04, 0.00012345 → 1.23E-04 -/
+example : sciEngineDigits ⟨6786735522447360, -39⟩ 2 = some (sciSpecDigits ⟨6786735522447360, -39⟩ 2) := by decide +kernel
+example : sciEngineDigits ⟨4554501111798888, -65⟩ 2 = some (['1'], ['2', '3'], ['4'], true) := by decide +kernel
+/-- a carry the first rounding takes care of: 9.9951 → 1.00E+01 -/
+example : sciEngineDigits ⟨5626741079441356, -49⟩ 2 = some (['1'], [], ['1'], false) := by decide +kernel
+example : sciSpecDigits ⟨5626741079441356, -49⟩ 2 = (['1'], [], ['1'], false) := by decide +kernel
+
 end IronCalc.Props.C20
